@@ -56,7 +56,7 @@ func Solve(roots []*smt.Term, solvers []string, timeoutS int, scratch string, ta
 	}
 	script, vars := smt.Script(roots)
 	var sb strings.Builder
-	sb.WriteString("(set-option :produce-models true)\n")
+	sb.WriteString("(set-option :produce-models true)\n(set-logic ALL)\n")
 	sb.WriteString(script)
 	sb.WriteString("(check-sat)\n")
 	if len(vars) > 0 {
